@@ -78,6 +78,8 @@ package sqlite
 //@        (cnt(yieldErr3) == 1 ==> lastarg(yieldErr3, 1) == nil && lastarg(yieldErr3, 2, Iface) != nil) &&
 //@        (cnt(yieldErr4) == 1 ==> lastarg(yieldErr4, 1) == nil && lastarg(yieldErr4, 2, Iface) != nil) &&
 //@        cnt(yieldErr1) + cnt(yieldErr3) + cnt(yieldErr4) <= 1
+//@   ensures [C11.batch.closeErrOnly] cnt(yieldErr4) == 1 ==> lastres(closeCall, Iface) != nil
+//@   ensures [C11.batch.iterErrOnly] cnt(yieldErr3) == 1 ==> rowsFailed(payload(rows))
 //@   ensures [C11.batch.iterErr] rowsFailed(payload(rows)) && (cnt(yieldElem) == 0 || lastres(yieldElem, Bool)) && cnt(yieldErr1) == 0 ==> cnt(yieldErr3) == 1 && lastarg(yieldErr3, 1) == nil && lastarg(yieldErr3, 2, Iface) != nil && !cont
 
 // ---------------------------------------------------------------- scanEvents / streamRows
